@@ -240,14 +240,17 @@ def run_chunk(case):
             f"C20/chunk/body/{bk}", vc, {"encoded": str(obj.encoded)[:60], "hash": obj.enc_hash}, {"encoded": body[:60], "hash": dg},
             "bc32 body / SHA-256 digest text differ from the reference",
         )
+        # one root cause, one report: the remaining comparisons are made relative to the library's own text
+        body, dg, E, body_ok = str(obj.encoded), str(obj.enc_hash), len(str(obj.encoded)), False
     else:
         res.ok("body==ref")
+        body_ok = True
     prev = None
     n_same = n_valid_diff = 0
     nt = 0
     for mx in range(lo, hi + 1):
         parts = attempt(obj.encode, max_size_per_chunk=mx)
-        want = ref.ur_parts(payload, mx, use_head)
+        want = ref.ur_fragments(body, dg, mx)
         n, size = ref.chunk_plan(E, mx)
         shape = "n1" if n == 1 else "even" if n * size == E else "short-last"
         if parts == want:
@@ -281,7 +284,7 @@ def run_chunk(case):
             else:
                 res.ok(f"parse(encode)==x[{shape}]", sample={"L": L, "max": mx, "n": n, "size": size} if n in (3, 7) and L in (100, 300) else None)
                 res.notes["distinct_chunkings_reassembled"] = res.notes.get("distinct_chunkings_reassembled", 0) + 1
-        st, val = ref.classify(parts, dialect)
+        st, val = ref.classify(parts, dialect) if body_ok else ("ok", payload)
         if (st, val) != ("ok", payload):
             res.violation(
                 f"C20/chunk/independent-reassembly/{bk}/{shape}", {"engine": "chunk", "case": dict(case, sizes=[mx, mx])}, [st, val if st == "bad" else len(val)], {"len": L},
@@ -302,7 +305,7 @@ def run_chunk(case):
     if lo == 1:
         # animate=False and the two single-part forms
         one = attempt(obj.encode, animate=False)
-        w1 = ref.ur_parts(payload, E, use_head)
+        w1 = ref.ur_fragments(body, dg, E)
         if one != w1:
             res.violation(f"C20/chunk/animate-false/{bk}", vc, repr(one)[:120], w1[0][:120], "encode(animate=False) is not the 1of1 part")
         else:
@@ -314,7 +317,7 @@ def run_chunk(case):
         for with_dg in (True, False):
             form = "with-digest" if with_dg else "no-digest"
             text = attempt(s.encode, use_checksum=with_dg)
-            want = ref.ur_single(payload, with_dg, use_head)
+            want = f"ur:bytes/{dg}/{body}" if with_dg else f"ur:bytes/{body}"
             if text != want:
                 res.violation(f"C20/chunk/single-encode/{form}/{bk}", vc, repr(text)[:120], want[:120], "BCURSingle.encode differs from the reference")
                 if not isinstance(text, str):
@@ -334,7 +337,7 @@ def run_chunk(case):
                     res.violation(f"C20/chunk/{nm}-roundtrip-different/{form}/{bk}", vc, {"len": len(got) if isinstance(got, bytes) else repr(got)}, {"len": L}, "single-part round trip yields a different payload")
                 else:
                     res.ok(f"{nm}.parse(single[{form}])==x", nontrivial=("single", L, form, nm))
-            st, val = ref.classify([text], dialect)
+            st, val = ref.classify([text], dialect) if body_ok else ("ok", payload)
             if (st, val) != ("ok", payload):
                 res.violation(f"C20/chunk/single-independent/{form}/{bk}", vc, [st, val if st == "bad" else len(val)], {"len": L}, "independent reader does not recover the payload from the single-part form")
             else:
@@ -433,7 +436,7 @@ def run_faults(case):
     parts = lib_parts(A, mx)
     if isinstance(parts, Rejected) or weak_parts_check(parts, *ref.ur_body(A), mx) is not None or len(parts) != n:
         # the honest message itself is unusable: reported by `chunk` with a precise class; here once per kind
-        res.violation(f"C20/faults/base-message/{case['kind']}", vc, repr(parts)[:200], f"{n} usable parts", "the library does not produce the expected honest parts for the base message")
+        res.violation("C20/faults/base-message", vc, repr(parts)[:200], f"{n} usable parts", "the library does not produce the expected honest parts for the base message")
         return res
     multi = BCURMulti.parse
     # 0 deviations: must be accepted and give A
